@@ -353,7 +353,7 @@ fn primitive_names(ctx: &Ctx, rep: &mut Report, only: Option<(usize, String)>) {
 
 /// Definitions that come out of a `macro_rules!` macro: (name, definition with §N type name / §T field type / §F field
 /// name / §V variant name, `run` body written against X / V or Yes / a / B)
-const MACRO_PROGS: [(&str, &str, &str, &str); 5] = [
+const MACRO_PROGS: [(&str, &str, &str, &str); 6] = [
     ("std-traits-named-struct", "V", "#[derive_ex(Clone, Debug, Default, Ord, PartialOrd, Eq, PartialEq, Hash)]\npub struct §N { pub §F: §T, pub q: §T }\n",
      "let vals = [X { a: V(1), q: V(2) }, X { a: V(1), q: V(3) }, X { a: V(0), q: V(3) }];\nfor x in &vals { for y in &vals { out.push_str(&::std::format!(\"{}{:?}{:?},\", x == y, ::core::cmp::PartialOrd::partial_cmp(x, y), ::core::cmp::Ord::cmp(x, y))); } out.push_str(&::std::format!(\"{:?}|{:#?}|{}|{:?};\", x, ::core::clone::Clone::clone(x), dxrt::RecHasher::of(x), <X as ::core::default::Default>::default())); }"),
     ("std-traits-enum", "V", "#[derive_ex(Clone, Debug, Default, Ord, PartialOrd, Eq, PartialEq, Hash)]\npub enum §N { #[default] A, §V(§T, §T), C { §F: §T } }\n",
@@ -362,15 +362,24 @@ const MACRO_PROGS: [(&str, &str, &str, &str); 5] = [
      "let vals = [X(V(1), V(2), V(0)), X(V(1), V(3), V(1)), X(V(0), V(3), V(2)), X(V(1), V(2), V(5))];\nfor x in &vals { for y in &vals { out.push_str(&::std::format!(\"{}{:?}{:?},\", x == y, ::core::cmp::PartialOrd::partial_cmp(x, y), ::core::cmp::Ord::cmp(x, y))); } out.push_str(&::std::format!(\"{:?}|{};\", x, dxrt::RecHasher::of(x))); }"),
     ("operators-struct", "Yes", "#[derive_ex(Add, SubAssign, Neg, Not, Clone)]\npub struct §N(pub §T, pub §T);\n",
      "let x = X(Yes, Yes); let y = X(Yes, Yes); let mut c = &x + &y; c -= &x; c -= ::core::clone::Clone::clone(&x); let d = -&c; let e = !d; let _ = (x + y) + &e; out.push_str(\"ok\");"),
+    // key templates: only explored with the helper attributes passed in as `meta` fragments (`$` cannot be written in a macro body)
+    ("keys-tuple-struct", "V", "#[derive_ex(Ord, PartialOrd, Eq, PartialEq, Hash, Debug)]\npub struct §N(#[ord(key = $.0)] #[hash(key = $.0 + 1)] pub §T, #[eq(key = $.0 % 2)] #[ord(key = $.0 % 2)] pub §T, #[debug(ignore)] pub §T);\n",
+     "let vals = [X(V(1), V(2), V(0)), X(V(1), V(3), V(1)), X(V(0), V(4), V(2)), X(V(1), V(2), V(5))];\nfor x in &vals { for y in &vals { out.push_str(&::std::format!(\"{}{:?}{:?},\", x == y, ::core::cmp::PartialOrd::partial_cmp(x, y), ::core::cmp::Ord::cmp(x, y))); } out.push_str(&::std::format!(\"{:?}|{};\", x, dxrt::RecHasher::of(x))); }"),
     ("deref-struct", "V", "#[derive_ex(Deref, DerefMut)]\npub struct §N(pub §T);\n",
      "let mut x = X(V(3)); (*x).0 += 1; out.push_str(&::std::format!(\"{:?}\", *x));"),
 ];
-const FRAGMENTS: [&str; 4] = ["ident", "ty", "tt", "path"];
+const FRAGMENTS: [&str; 5] = ["ident", "ty", "tt", "path", "meta"];
 
 fn macro_program(pi: usize, frag: Option<&str>) -> String {
     let (_, fty, def, run) = MACRO_PROGS[pi];
+    let direct = def.replace("§N", "X").replace("§T", fty).replace("§F", "a").replace("§V", "B");
     let d = match frag {
-        None => def.replace("§N", "X").replace("§T", fty).replace("§F", "a").replace("§V", "B"),
+        None => direct,
+        // the helper attributes (incl. their key / by expressions) arrive as `meta` fragments of the macro call
+        Some("meta") => {
+            let (head, item) = direct.split_once('\n').unwrap_or(("", ""));
+            crate::gen::macroize_helper_attrs(head, item).unwrap_or(direct.clone())
+        }
         Some(f) => ::std::format!("macro_rules! mk {{ ($n:ident, $t:{f}, $f:ident, $v:ident) => {{ {} }} }}\nmk!(X, {fty}, a, B);\n", def.replace("§N", "$n").replace("§T", "$t").replace("§F", "$f").replace("§V", "$v")),
     };
     ::std::format!("use derive_ex::derive_ex;\nuse dxrt::V;\nuse dxrt::probe::Yes;\n{d}pub fn run() -> String {{\n    let mut out = String::new();\n    {run}\n    out\n}}\n")
@@ -386,6 +395,11 @@ fn macro_generated(ctx: &Ctx, rep: &mut Report, only: Option<(usize, String)>) {
         }
         todo.push((pi, None));
         for f in FRAGMENTS {
+            let has_dollar = MACRO_PROGS[pi].2.contains('$');
+            let has_helper = MACRO_PROGS[pi].2.contains("#[ord(") || MACRO_PROGS[pi].2.contains("#[debug(") || MACRO_PROGS[pi].2.contains("#[hash(");
+            if (f == "meta") != has_dollar && !(f == "meta" && has_helper) {
+                continue;
+            }
             if only.as_ref().map(|o| o.1 == f).unwrap_or(true) {
                 todo.push((pi, Some(f)));
             }
